@@ -949,16 +949,16 @@ static const yytype_int16 yyrline[] =
      683,   682,   707,   713,   773,   774,   775,   776,   777,   778,
      784,   805,   836,   841,   858,   863,   883,   884,   898,   899,
      900,   901,   902,   906,   907,   921,   925,  1021,  1069,  1130,
-    1175,  1176,  1180,  1215,  1268,  1323,  1354,  1361,  1368,  1381,
-    1392,  1403,  1414,  1425,  1436,  1447,  1458,  1473,  1489,  1501,
-    1576,  1614,  1518,  1743,  1766,  1778,  1806,  1825,  1848,  1896,
-    1903,  1910,  1909,  1956,  1955,  2006,  2014,  2022,  2030,  2038,
-    2046,  2054,  2058,  2066,  2067,  2092,  2112,  2140,  2214,  2246,
-    2264,  2275,  2318,  2334,  2354,  2364,  2363,  2372,  2386,  2387,
-    2392,  2402,  2417,  2416,  2429,  2430,  2435,  2468,  2493,  2549,
-    2556,  2562,  2568,  2578,  2582,  2590,  2602,  2616,  2623,  2630,
-    2655,  2667,  2679,  2691,  2706,  2718,  2733,  2780,  2801,  2836,
-    2871,  2905,  2936,  2958,  2968,  2978,  2988,  2998,  3018,  3038
+    1176,  1182,  1186,  1221,  1274,  1329,  1360,  1367,  1374,  1387,
+    1398,  1409,  1420,  1431,  1442,  1453,  1464,  1479,  1495,  1507,
+    1582,  1620,  1524,  1749,  1772,  1784,  1812,  1831,  1854,  1902,
+    1909,  1916,  1915,  1962,  1961,  2012,  2020,  2028,  2036,  2044,
+    2052,  2060,  2064,  2072,  2073,  2098,  2118,  2146,  2220,  2252,
+    2270,  2281,  2324,  2340,  2360,  2370,  2369,  2378,  2392,  2393,
+    2398,  2408,  2423,  2422,  2435,  2436,  2441,  2474,  2499,  2555,
+    2562,  2568,  2574,  2584,  2588,  2596,  2608,  2622,  2629,  2636,
+    2661,  2673,  2685,  2697,  2712,  2724,  2739,  2786,  2807,  2842,
+    2877,  2911,  2942,  2964,  2974,  2984,  2994,  3004,  3024,  3044
 };
 #endif
 
@@ -3127,19 +3127,24 @@ yyreduce:
     break;
 
   case 70: /* arguments: %empty  */
-#line 1175 "libyara/grammar.y"
-                      { (yyval.c_string) = yr_strdup(""); }
-#line 3133 "libyara/grammar.c"
+#line 1176 "libyara/grammar.y"
+      {
+        (yyval.c_string) = yr_strdup("");
+
+        if ((yyval.c_string) == NULL)
+          fail_with_error(ERROR_INSUFFICIENT_MEMORY);
+      }
+#line 3138 "libyara/grammar.c"
     break;
 
   case 71: /* arguments: arguments_list  */
-#line 1176 "libyara/grammar.y"
+#line 1182 "libyara/grammar.y"
                       { (yyval.c_string) = (yyvsp[0].c_string); }
-#line 3139 "libyara/grammar.c"
+#line 3144 "libyara/grammar.c"
     break;
 
   case 72: /* arguments_list: expression  */
-#line 1181 "libyara/grammar.y"
+#line 1187 "libyara/grammar.y"
       {
         (yyval.c_string) = (char*) yr_malloc(YR_MAX_FUNCTION_ARGS + 1);
 
@@ -3174,11 +3179,11 @@ yyreduce:
             assert(compiler->last_error != ERROR_SUCCESS);
         }
       }
-#line 3178 "libyara/grammar.c"
+#line 3183 "libyara/grammar.c"
     break;
 
   case 73: /* arguments_list: arguments_list ',' expression  */
-#line 1216 "libyara/grammar.y"
+#line 1222 "libyara/grammar.y"
       {
         int result = ERROR_SUCCESS;
 
@@ -3227,11 +3232,11 @@ yyreduce:
 
         (yyval.c_string) = (yyvsp[-2].c_string);
       }
-#line 3231 "libyara/grammar.c"
+#line 3236 "libyara/grammar.c"
     break;
 
   case 74: /* regexp: "regular expression"  */
-#line 1269 "libyara/grammar.y"
+#line 1275 "libyara/grammar.y"
       {
         YR_ARENA_REF re_ref;
         RE_ERROR error;
@@ -3282,11 +3287,11 @@ yyreduce:
 
         (yyval.expression).type = EXPRESSION_TYPE_REGEXP;
       }
-#line 3286 "libyara/grammar.c"
+#line 3291 "libyara/grammar.c"
     break;
 
   case 75: /* boolean_expression: expression  */
-#line 1324 "libyara/grammar.y"
+#line 1330 "libyara/grammar.y"
       {
         if ((yyvsp[0].expression).type == EXPRESSION_TYPE_STRING)
         {
@@ -3314,33 +3319,33 @@ yyreduce:
 
         (yyval.expression).type = EXPRESSION_TYPE_BOOLEAN;
       }
-#line 3318 "libyara/grammar.c"
+#line 3323 "libyara/grammar.c"
     break;
 
   case 76: /* expression: "<true>"  */
-#line 1355 "libyara/grammar.y"
+#line 1361 "libyara/grammar.y"
       {
         fail_if_error(yr_parser_emit_push_const(yyscanner, 1));
 
         (yyval.expression).type = EXPRESSION_TYPE_BOOLEAN;
         (yyval.expression).required_strings.count = 0;
       }
-#line 3329 "libyara/grammar.c"
+#line 3334 "libyara/grammar.c"
     break;
 
   case 77: /* expression: "<false>"  */
-#line 1362 "libyara/grammar.y"
+#line 1368 "libyara/grammar.y"
       {
         fail_if_error(yr_parser_emit_push_const(yyscanner, 0));
 
         (yyval.expression).type = EXPRESSION_TYPE_BOOLEAN;
         (yyval.expression).required_strings.count = 0;
       }
-#line 3340 "libyara/grammar.c"
+#line 3345 "libyara/grammar.c"
     break;
 
   case 78: /* expression: primary_expression "<matches>" regexp  */
-#line 1369 "libyara/grammar.y"
+#line 1375 "libyara/grammar.y"
       {
         check_type((yyvsp[-2].expression), EXPRESSION_TYPE_STRING, "matches");
         check_type((yyvsp[0].expression), EXPRESSION_TYPE_REGEXP, "matches");
@@ -3353,11 +3358,11 @@ yyreduce:
         (yyval.expression).type = EXPRESSION_TYPE_BOOLEAN;
         (yyval.expression).required_strings.count = 0;
       }
-#line 3357 "libyara/grammar.c"
+#line 3362 "libyara/grammar.c"
     break;
 
   case 79: /* expression: primary_expression "<contains>" primary_expression  */
-#line 1382 "libyara/grammar.y"
+#line 1388 "libyara/grammar.y"
       {
         check_type((yyvsp[-2].expression), EXPRESSION_TYPE_STRING, "contains");
         check_type((yyvsp[0].expression), EXPRESSION_TYPE_STRING, "contains");
@@ -3368,11 +3373,11 @@ yyreduce:
         (yyval.expression).type = EXPRESSION_TYPE_BOOLEAN;
         (yyval.expression).required_strings.count = 0;
       }
-#line 3372 "libyara/grammar.c"
+#line 3377 "libyara/grammar.c"
     break;
 
   case 80: /* expression: primary_expression "<icontains>" primary_expression  */
-#line 1393 "libyara/grammar.y"
+#line 1399 "libyara/grammar.y"
       {
         check_type((yyvsp[-2].expression), EXPRESSION_TYPE_STRING, "icontains");
         check_type((yyvsp[0].expression), EXPRESSION_TYPE_STRING, "icontains");
@@ -3383,11 +3388,11 @@ yyreduce:
         (yyval.expression).type = EXPRESSION_TYPE_BOOLEAN;
         (yyval.expression).required_strings.count = 0;
       }
-#line 3387 "libyara/grammar.c"
+#line 3392 "libyara/grammar.c"
     break;
 
   case 81: /* expression: primary_expression "<startswith>" primary_expression  */
-#line 1404 "libyara/grammar.y"
+#line 1410 "libyara/grammar.y"
       {
         check_type((yyvsp[-2].expression), EXPRESSION_TYPE_STRING, "startswith");
         check_type((yyvsp[0].expression), EXPRESSION_TYPE_STRING, "startswith");
@@ -3398,11 +3403,11 @@ yyreduce:
         (yyval.expression).type = EXPRESSION_TYPE_BOOLEAN;
         (yyval.expression).required_strings.count = 0;
       }
-#line 3402 "libyara/grammar.c"
+#line 3407 "libyara/grammar.c"
     break;
 
   case 82: /* expression: primary_expression "<istartswith>" primary_expression  */
-#line 1415 "libyara/grammar.y"
+#line 1421 "libyara/grammar.y"
       {
         check_type((yyvsp[-2].expression), EXPRESSION_TYPE_STRING, "istartswith");
         check_type((yyvsp[0].expression), EXPRESSION_TYPE_STRING, "istartswith");
@@ -3413,11 +3418,11 @@ yyreduce:
         (yyval.expression).type = EXPRESSION_TYPE_BOOLEAN;
         (yyval.expression).required_strings.count = 0;
       }
-#line 3417 "libyara/grammar.c"
+#line 3422 "libyara/grammar.c"
     break;
 
   case 83: /* expression: primary_expression "<endswith>" primary_expression  */
-#line 1426 "libyara/grammar.y"
+#line 1432 "libyara/grammar.y"
       {
         check_type((yyvsp[-2].expression), EXPRESSION_TYPE_STRING, "endswith");
         check_type((yyvsp[0].expression), EXPRESSION_TYPE_STRING, "endswith");
@@ -3428,11 +3433,11 @@ yyreduce:
         (yyval.expression).type = EXPRESSION_TYPE_BOOLEAN;
         (yyval.expression).required_strings.count = 0;
       }
-#line 3432 "libyara/grammar.c"
+#line 3437 "libyara/grammar.c"
     break;
 
   case 84: /* expression: primary_expression "<iendswith>" primary_expression  */
-#line 1437 "libyara/grammar.y"
+#line 1443 "libyara/grammar.y"
       {
         check_type((yyvsp[-2].expression), EXPRESSION_TYPE_STRING, "iendswith");
         check_type((yyvsp[0].expression), EXPRESSION_TYPE_STRING, "iendswith");
@@ -3443,11 +3448,11 @@ yyreduce:
         (yyval.expression).type = EXPRESSION_TYPE_BOOLEAN;
         (yyval.expression).required_strings.count = 0;
       }
-#line 3447 "libyara/grammar.c"
+#line 3452 "libyara/grammar.c"
     break;
 
   case 85: /* expression: primary_expression "<iequals>" primary_expression  */
-#line 1448 "libyara/grammar.y"
+#line 1454 "libyara/grammar.y"
       {
         check_type((yyvsp[-2].expression), EXPRESSION_TYPE_STRING, "iequals");
         check_type((yyvsp[0].expression), EXPRESSION_TYPE_STRING, "iequals");
@@ -3458,11 +3463,11 @@ yyreduce:
         (yyval.expression).type = EXPRESSION_TYPE_BOOLEAN;
         (yyval.expression).required_strings.count = 0;
       }
-#line 3462 "libyara/grammar.c"
+#line 3467 "libyara/grammar.c"
     break;
 
   case 86: /* expression: "string identifier"  */
-#line 1459 "libyara/grammar.y"
+#line 1465 "libyara/grammar.y"
       {
         int result = yr_parser_reduce_string_identifier(
             yyscanner,
@@ -3477,11 +3482,11 @@ yyreduce:
         (yyval.expression).type = EXPRESSION_TYPE_BOOLEAN;
         (yyval.expression).required_strings.count = 1;
       }
-#line 3481 "libyara/grammar.c"
+#line 3486 "libyara/grammar.c"
     break;
 
   case 87: /* expression: "string identifier" "<at>" primary_expression  */
-#line 1474 "libyara/grammar.y"
+#line 1480 "libyara/grammar.y"
       {
         int result;
 
@@ -3497,11 +3502,11 @@ yyreduce:
         (yyval.expression).required_strings.count = 1;
         (yyval.expression).type = EXPRESSION_TYPE_BOOLEAN;
       }
-#line 3501 "libyara/grammar.c"
+#line 3506 "libyara/grammar.c"
     break;
 
   case 88: /* expression: "string identifier" "<in>" range  */
-#line 1490 "libyara/grammar.y"
+#line 1496 "libyara/grammar.y"
       {
         int result = yr_parser_reduce_string_identifier(
             yyscanner, (yyvsp[-2].c_string), OP_FOUND_IN, YR_UNDEFINED);
@@ -3513,11 +3518,11 @@ yyreduce:
         (yyval.expression).required_strings.count = 1;
         (yyval.expression).type = EXPRESSION_TYPE_BOOLEAN;
       }
-#line 3517 "libyara/grammar.c"
+#line 3522 "libyara/grammar.c"
     break;
 
   case 89: /* expression: "<for>" for_expression error  */
-#line 1502 "libyara/grammar.y"
+#line 1508 "libyara/grammar.y"
       {
         // Free all the loop variable identifiers, including the variables for
         // the current loop (represented by loop_index), and set loop_index to
@@ -3534,11 +3539,11 @@ yyreduce:
         compiler->loop_index = -1;
         YYERROR;
       }
-#line 3538 "libyara/grammar.c"
+#line 3543 "libyara/grammar.c"
     break;
 
   case 90: /* $@6: %empty  */
-#line 1576 "libyara/grammar.y"
+#line 1582 "libyara/grammar.y"
       {
         // var_frame is used for accessing local variables used in this loop.
         // All local variables are accessed using var_frame as a reference,
@@ -3576,11 +3581,11 @@ yyreduce:
         fail_if_error(yr_parser_emit_with_arg(
             yyscanner, OP_POP_M, var_frame + 2, NULL, NULL));
       }
-#line 3580 "libyara/grammar.c"
+#line 3585 "libyara/grammar.c"
     break;
 
   case 91: /* $@7: %empty  */
-#line 1614 "libyara/grammar.y"
+#line 1620 "libyara/grammar.y"
       {
         YR_LOOP_CONTEXT* loop_ctx = &compiler->loop[compiler->loop_index];
         YR_FIXUP* fixup;
@@ -3629,11 +3634,11 @@ yyreduce:
 
         loop_ctx->start_ref = loop_start_ref;
       }
-#line 3633 "libyara/grammar.c"
+#line 3638 "libyara/grammar.c"
     break;
 
   case 92: /* expression: "<for>" for_expression $@6 for_iteration ':' $@7 '(' boolean_expression ')'  */
-#line 1663 "libyara/grammar.y"
+#line 1669 "libyara/grammar.y"
       {
         int32_t jmp_offset;
         YR_FIXUP* fixup;
@@ -3714,11 +3719,11 @@ yyreduce:
         (yyval.expression).type = EXPRESSION_TYPE_BOOLEAN;
         (yyval.expression).required_strings.count = 0;
       }
-#line 3718 "libyara/grammar.c"
+#line 3723 "libyara/grammar.c"
     break;
 
   case 93: /* expression: for_expression "<of>" string_set  */
-#line 1744 "libyara/grammar.y"
+#line 1750 "libyara/grammar.y"
       {
         if ((yyvsp[-2].expression).type == EXPRESSION_TYPE_INTEGER && (yyvsp[-2].expression).value.integer > (yyvsp[0].integer))
         {
@@ -3741,11 +3746,11 @@ yyreduce:
 
         (yyval.expression).type = EXPRESSION_TYPE_BOOLEAN;
       }
-#line 3745 "libyara/grammar.c"
+#line 3750 "libyara/grammar.c"
     break;
 
   case 94: /* expression: for_expression "<of>" rule_set  */
-#line 1767 "libyara/grammar.y"
+#line 1773 "libyara/grammar.y"
       {
         if ((yyvsp[-2].expression).type == EXPRESSION_TYPE_INTEGER && (yyvsp[-2].expression).value.integer > (yyvsp[0].integer))
         {
@@ -3757,11 +3762,11 @@ yyreduce:
         (yyval.expression).type = EXPRESSION_TYPE_BOOLEAN;
         (yyval.expression).required_strings.count = 0;
       }
-#line 3761 "libyara/grammar.c"
+#line 3766 "libyara/grammar.c"
     break;
 
   case 95: /* expression: primary_expression '%' "<of>" string_set  */
-#line 1779 "libyara/grammar.y"
+#line 1785 "libyara/grammar.y"
       {
         check_type((yyvsp[-3].expression), EXPRESSION_TYPE_INTEGER, "%");
 
@@ -3789,11 +3794,11 @@ yyreduce:
 
         yr_parser_emit_with_arg(yyscanner, OP_OF_PERCENT, OF_STRING_SET, NULL, NULL);
       }
-#line 3793 "libyara/grammar.c"
+#line 3798 "libyara/grammar.c"
     break;
 
   case 96: /* expression: primary_expression '%' "<of>" rule_set  */
-#line 1807 "libyara/grammar.y"
+#line 1813 "libyara/grammar.y"
       {
         check_type((yyvsp[-3].expression), EXPRESSION_TYPE_INTEGER, "%");
 
@@ -3812,11 +3817,11 @@ yyreduce:
 
         yr_parser_emit_with_arg(yyscanner, OP_OF_PERCENT, OF_RULE_SET, NULL, NULL);
       }
-#line 3816 "libyara/grammar.c"
+#line 3821 "libyara/grammar.c"
     break;
 
   case 97: /* expression: for_expression "<of>" string_set "<in>" range  */
-#line 1826 "libyara/grammar.y"
+#line 1832 "libyara/grammar.y"
       {
         if ((yyvsp[-4].expression).type == EXPRESSION_TYPE_INTEGER && (yyvsp[-4].expression).value.integer > (yyvsp[-2].integer))
         {
@@ -3839,11 +3844,11 @@ yyreduce:
 
         (yyval.expression).type = EXPRESSION_TYPE_BOOLEAN;
       }
-#line 3843 "libyara/grammar.c"
+#line 3848 "libyara/grammar.c"
     break;
 
   case 98: /* expression: for_expression "<of>" string_set "<at>" primary_expression  */
-#line 1849 "libyara/grammar.y"
+#line 1855 "libyara/grammar.y"
       {
         if ((yyvsp[0].expression).type != EXPRESSION_TYPE_INTEGER)
         {
@@ -3891,32 +3896,32 @@ yyreduce:
 
         (yyval.expression).type = EXPRESSION_TYPE_BOOLEAN;
       }
-#line 3895 "libyara/grammar.c"
+#line 3900 "libyara/grammar.c"
     break;
 
   case 99: /* expression: "<not>" boolean_expression  */
-#line 1897 "libyara/grammar.y"
+#line 1903 "libyara/grammar.y"
       {
         yr_parser_emit(yyscanner, OP_NOT, NULL);
 
         (yyval.expression).type = EXPRESSION_TYPE_BOOLEAN;
         (yyval.expression).required_strings.count = 0;
       }
-#line 3906 "libyara/grammar.c"
+#line 3911 "libyara/grammar.c"
     break;
 
   case 100: /* expression: "<defined>" boolean_expression  */
-#line 1904 "libyara/grammar.y"
+#line 1910 "libyara/grammar.y"
       {
         yr_parser_emit(yyscanner, OP_DEFINED, NULL);
         (yyval.expression).type = EXPRESSION_TYPE_BOOLEAN;
         (yyval.expression).required_strings.count = 0;
       }
-#line 3916 "libyara/grammar.c"
+#line 3921 "libyara/grammar.c"
     break;
 
   case 101: /* $@8: %empty  */
-#line 1910 "libyara/grammar.y"
+#line 1916 "libyara/grammar.y"
       {
         YR_FIXUP* fixup;
         YR_ARENA_REF jmp_offset_ref;
@@ -3938,11 +3943,11 @@ yyreduce:
         fixup->next = compiler->fixup_stack_head;
         compiler->fixup_stack_head = fixup;
       }
-#line 3942 "libyara/grammar.c"
+#line 3947 "libyara/grammar.c"
     break;
 
   case 102: /* expression: boolean_expression "<and>" $@8 boolean_expression  */
-#line 1932 "libyara/grammar.y"
+#line 1938 "libyara/grammar.y"
       {
         YR_FIXUP* fixup;
 
@@ -3966,11 +3971,11 @@ yyreduce:
         (yyval.expression).type = EXPRESSION_TYPE_BOOLEAN;
         (yyval.expression).required_strings.count = (yyvsp[0].expression).required_strings.count + (yyvsp[-3].expression).required_strings.count;
       }
-#line 3970 "libyara/grammar.c"
+#line 3975 "libyara/grammar.c"
     break;
 
   case 103: /* $@9: %empty  */
-#line 1956 "libyara/grammar.y"
+#line 1962 "libyara/grammar.y"
       {
         YR_FIXUP* fixup;
         YR_ARENA_REF jmp_offset_ref;
@@ -3991,11 +3996,11 @@ yyreduce:
         fixup->next = compiler->fixup_stack_head;
         compiler->fixup_stack_head = fixup;
       }
-#line 3995 "libyara/grammar.c"
+#line 4000 "libyara/grammar.c"
     break;
 
   case 104: /* expression: boolean_expression "<or>" $@9 boolean_expression  */
-#line 1977 "libyara/grammar.y"
+#line 1983 "libyara/grammar.y"
       {
         YR_FIXUP* fixup;
 
@@ -4025,11 +4030,11 @@ yyreduce:
           (yyval.expression).required_strings.count = (yyvsp[-3].expression).required_strings.count;
         }
       }
-#line 4029 "libyara/grammar.c"
+#line 4034 "libyara/grammar.c"
     break;
 
   case 105: /* expression: primary_expression "<" primary_expression  */
-#line 2007 "libyara/grammar.y"
+#line 2013 "libyara/grammar.y"
       {
         fail_if_error(yr_parser_reduce_operation(
             yyscanner, "<", (yyvsp[-2].expression), (yyvsp[0].expression)));
@@ -4037,11 +4042,11 @@ yyreduce:
         (yyval.expression).type = EXPRESSION_TYPE_BOOLEAN;
         (yyval.expression).required_strings.count = 0;
       }
-#line 4041 "libyara/grammar.c"
+#line 4046 "libyara/grammar.c"
     break;
 
   case 106: /* expression: primary_expression ">" primary_expression  */
-#line 2015 "libyara/grammar.y"
+#line 2021 "libyara/grammar.y"
       {
         fail_if_error(yr_parser_reduce_operation(
             yyscanner, ">", (yyvsp[-2].expression), (yyvsp[0].expression)));
@@ -4049,11 +4054,11 @@ yyreduce:
         (yyval.expression).type = EXPRESSION_TYPE_BOOLEAN;
         (yyval.expression).required_strings.count = 0;
       }
-#line 4053 "libyara/grammar.c"
+#line 4058 "libyara/grammar.c"
     break;
 
   case 107: /* expression: primary_expression "<=" primary_expression  */
-#line 2023 "libyara/grammar.y"
+#line 2029 "libyara/grammar.y"
       {
         fail_if_error(yr_parser_reduce_operation(
             yyscanner, "<=", (yyvsp[-2].expression), (yyvsp[0].expression)));
@@ -4061,11 +4066,11 @@ yyreduce:
         (yyval.expression).type = EXPRESSION_TYPE_BOOLEAN;
         (yyval.expression).required_strings.count = 0;
       }
-#line 4065 "libyara/grammar.c"
+#line 4070 "libyara/grammar.c"
     break;
 
   case 108: /* expression: primary_expression ">=" primary_expression  */
-#line 2031 "libyara/grammar.y"
+#line 2037 "libyara/grammar.y"
       {
         fail_if_error(yr_parser_reduce_operation(
             yyscanner, ">=", (yyvsp[-2].expression), (yyvsp[0].expression)));
@@ -4073,11 +4078,11 @@ yyreduce:
         (yyval.expression).type = EXPRESSION_TYPE_BOOLEAN;
         (yyval.expression).required_strings.count = 0;
       }
-#line 4077 "libyara/grammar.c"
+#line 4082 "libyara/grammar.c"
     break;
 
   case 109: /* expression: primary_expression "==" primary_expression  */
-#line 2039 "libyara/grammar.y"
+#line 2045 "libyara/grammar.y"
       {
         fail_if_error(yr_parser_reduce_operation(
             yyscanner, "==", (yyvsp[-2].expression), (yyvsp[0].expression)));
@@ -4085,11 +4090,11 @@ yyreduce:
         (yyval.expression).type = EXPRESSION_TYPE_BOOLEAN;
         (yyval.expression).required_strings.count = 0;
       }
-#line 4089 "libyara/grammar.c"
+#line 4094 "libyara/grammar.c"
     break;
 
   case 110: /* expression: primary_expression "!=" primary_expression  */
-#line 2047 "libyara/grammar.y"
+#line 2053 "libyara/grammar.y"
       {
         fail_if_error(yr_parser_reduce_operation(
             yyscanner, "!=", (yyvsp[-2].expression), (yyvsp[0].expression)));
@@ -4097,33 +4102,33 @@ yyreduce:
         (yyval.expression).type = EXPRESSION_TYPE_BOOLEAN;
         (yyval.expression).required_strings.count = 0;
       }
-#line 4101 "libyara/grammar.c"
+#line 4106 "libyara/grammar.c"
     break;
 
   case 111: /* expression: primary_expression  */
-#line 2055 "libyara/grammar.y"
+#line 2061 "libyara/grammar.y"
       {
         (yyval.expression) = (yyvsp[0].expression);
       }
-#line 4109 "libyara/grammar.c"
+#line 4114 "libyara/grammar.c"
     break;
 
   case 112: /* expression: '(' expression ')'  */
-#line 2059 "libyara/grammar.y"
+#line 2065 "libyara/grammar.y"
       {
         (yyval.expression) = (yyvsp[-1].expression);
       }
-#line 4117 "libyara/grammar.c"
+#line 4122 "libyara/grammar.c"
     break;
 
   case 113: /* for_iteration: for_variables "<in>" iterator  */
-#line 2066 "libyara/grammar.y"
+#line 2072 "libyara/grammar.y"
                                   { (yyval.integer) = FOR_ITERATION_ITERATOR; }
-#line 4123 "libyara/grammar.c"
+#line 4128 "libyara/grammar.c"
     break;
 
   case 114: /* for_iteration: "<of>" string_iterator  */
-#line 2068 "libyara/grammar.y"
+#line 2074 "libyara/grammar.y"
       {
         int var_frame;
         int result = ERROR_SUCCESS;
@@ -4144,11 +4149,11 @@ yyreduce:
 
         (yyval.integer) = FOR_ITERATION_STRING_SET;
       }
-#line 4148 "libyara/grammar.c"
+#line 4153 "libyara/grammar.c"
     break;
 
   case 115: /* for_variables: "identifier"  */
-#line 2093 "libyara/grammar.y"
+#line 2099 "libyara/grammar.y"
       {
         int result = ERROR_SUCCESS;
 
@@ -4168,11 +4173,11 @@ yyreduce:
 
         assert(loop_ctx->vars_count <= YR_MAX_LOOP_VARS);
       }
-#line 4172 "libyara/grammar.c"
+#line 4177 "libyara/grammar.c"
     break;
 
   case 116: /* for_variables: for_variables ',' "identifier"  */
-#line 2113 "libyara/grammar.y"
+#line 2119 "libyara/grammar.y"
       {
         int result = ERROR_SUCCESS;
 
@@ -4197,11 +4202,11 @@ yyreduce:
 
         loop_ctx->vars[loop_ctx->vars_count++].identifier.ptr = (yyvsp[0].c_string);
       }
-#line 4201 "libyara/grammar.c"
+#line 4206 "libyara/grammar.c"
     break;
 
   case 117: /* iterator: identifier  */
-#line 2141 "libyara/grammar.y"
+#line 2147 "libyara/grammar.y"
       {
         YR_LOOP_CONTEXT* loop_ctx = &compiler->loop[compiler->loop_index];
 
@@ -4275,11 +4280,11 @@ yyreduce:
 
         fail_if_error(result);
       }
-#line 4279 "libyara/grammar.c"
+#line 4284 "libyara/grammar.c"
     break;
 
   case 118: /* iterator: set  */
-#line 2215 "libyara/grammar.y"
+#line 2221 "libyara/grammar.y"
       {
         int result = ERROR_SUCCESS;
 
@@ -4307,11 +4312,11 @@ yyreduce:
 
         fail_if_error(result);
       }
-#line 4311 "libyara/grammar.c"
+#line 4316 "libyara/grammar.c"
     break;
 
   case 119: /* set: '(' enumeration ')'  */
-#line 2247 "libyara/grammar.y"
+#line 2253 "libyara/grammar.y"
       {
         // $2.count contains the number of items in the enumeration
         fail_if_error(yr_parser_emit_push_const(yyscanner, (yyvsp[-1].enumeration).count));
@@ -4329,22 +4334,22 @@ yyreduce:
 
         (yyval.enumeration).type = (yyvsp[-1].enumeration).type;
       }
-#line 4333 "libyara/grammar.c"
+#line 4338 "libyara/grammar.c"
     break;
 
   case 120: /* set: range  */
-#line 2265 "libyara/grammar.y"
+#line 2271 "libyara/grammar.y"
       {
         fail_if_error(yr_parser_emit(
             yyscanner, OP_ITER_START_INT_RANGE, NULL));
 
         (yyval.enumeration).type = EXPRESSION_TYPE_INTEGER;
       }
-#line 4344 "libyara/grammar.c"
+#line 4349 "libyara/grammar.c"
     break;
 
   case 121: /* range: '(' primary_expression ".." primary_expression ')'  */
-#line 2276 "libyara/grammar.y"
+#line 2282 "libyara/grammar.y"
       {
         int result = ERROR_SUCCESS;
 
@@ -4383,11 +4388,11 @@ yyreduce:
 
         fail_if_error(result);
       }
-#line 4387 "libyara/grammar.c"
+#line 4392 "libyara/grammar.c"
     break;
 
   case 122: /* enumeration: primary_expression  */
-#line 2319 "libyara/grammar.y"
+#line 2325 "libyara/grammar.y"
       {
         int result = ERROR_SUCCESS;
 
@@ -4403,11 +4408,11 @@ yyreduce:
         (yyval.enumeration).type = (yyvsp[0].expression).type;
         (yyval.enumeration).count = 1;
       }
-#line 4407 "libyara/grammar.c"
+#line 4412 "libyara/grammar.c"
     break;
 
   case 123: /* enumeration: enumeration ',' primary_expression  */
-#line 2335 "libyara/grammar.y"
+#line 2341 "libyara/grammar.y"
       {
         int result = ERROR_SUCCESS;
 
@@ -4423,38 +4428,38 @@ yyreduce:
         (yyval.enumeration).type = (yyvsp[-2].enumeration).type;
         (yyval.enumeration).count = (yyvsp[-2].enumeration).count + 1;
       }
-#line 4427 "libyara/grammar.c"
+#line 4432 "libyara/grammar.c"
     break;
 
   case 124: /* string_iterator: string_set  */
-#line 2355 "libyara/grammar.y"
+#line 2361 "libyara/grammar.y"
       {
         fail_if_error(yr_parser_emit_push_const(yyscanner, (yyvsp[0].integer)));
         fail_if_error(yr_parser_emit(yyscanner, OP_ITER_START_STRING_SET,
             NULL));
       }
-#line 4437 "libyara/grammar.c"
+#line 4442 "libyara/grammar.c"
     break;
 
   case 125: /* $@10: %empty  */
-#line 2364 "libyara/grammar.y"
+#line 2370 "libyara/grammar.y"
       {
         // Push end-of-list marker
         yr_parser_emit_push_const(yyscanner, YR_UNDEFINED);
       }
-#line 4446 "libyara/grammar.c"
+#line 4451 "libyara/grammar.c"
     break;
 
   case 126: /* string_set: '(' $@10 string_enumeration ')'  */
-#line 2369 "libyara/grammar.y"
+#line 2375 "libyara/grammar.y"
       {
         (yyval.integer) = (yyvsp[-1].integer);
       }
-#line 4454 "libyara/grammar.c"
+#line 4459 "libyara/grammar.c"
     break;
 
   case 127: /* string_set: "<them>"  */
-#line 2373 "libyara/grammar.y"
+#line 2379 "libyara/grammar.y"
       {
         fail_if_error(yr_parser_emit_push_const(yyscanner, YR_UNDEFINED));
 
@@ -4464,23 +4469,23 @@ yyreduce:
 
         (yyval.integer) = count;
       }
-#line 4468 "libyara/grammar.c"
+#line 4473 "libyara/grammar.c"
     break;
 
   case 128: /* string_enumeration: string_enumeration_item  */
-#line 2386 "libyara/grammar.y"
+#line 2392 "libyara/grammar.y"
                               { (yyval.integer) = (yyvsp[0].integer); }
-#line 4474 "libyara/grammar.c"
+#line 4479 "libyara/grammar.c"
     break;
 
   case 129: /* string_enumeration: string_enumeration ',' string_enumeration_item  */
-#line 2387 "libyara/grammar.y"
+#line 2393 "libyara/grammar.y"
                                                      { (yyval.integer) = (yyvsp[-2].integer) + (yyvsp[0].integer); }
-#line 4480 "libyara/grammar.c"
+#line 4485 "libyara/grammar.c"
     break;
 
   case 130: /* string_enumeration_item: "string identifier"  */
-#line 2393 "libyara/grammar.y"
+#line 2399 "libyara/grammar.y"
       {
         int count = 0;
         int result = yr_parser_emit_pushes_for_strings(yyscanner, (yyvsp[0].c_string), &count);
@@ -4490,11 +4495,11 @@ yyreduce:
 
         (yyval.integer) = count;
       }
-#line 4494 "libyara/grammar.c"
+#line 4499 "libyara/grammar.c"
     break;
 
   case 131: /* string_enumeration_item: "string identifier with wildcard"  */
-#line 2403 "libyara/grammar.y"
+#line 2409 "libyara/grammar.y"
       {
         int count = 0;
         int result = yr_parser_emit_pushes_for_strings(yyscanner, (yyvsp[0].c_string), &count);
@@ -4504,40 +4509,40 @@ yyreduce:
 
         (yyval.integer) = count;
       }
-#line 4508 "libyara/grammar.c"
+#line 4513 "libyara/grammar.c"
     break;
 
   case 132: /* $@11: %empty  */
-#line 2417 "libyara/grammar.y"
+#line 2423 "libyara/grammar.y"
       {
         // Push end-of-list marker
         yr_parser_emit_push_const(yyscanner, YR_UNDEFINED);
       }
-#line 4517 "libyara/grammar.c"
+#line 4522 "libyara/grammar.c"
     break;
 
   case 133: /* rule_set: '(' $@11 rule_enumeration ')'  */
-#line 2422 "libyara/grammar.y"
+#line 2428 "libyara/grammar.y"
       {
         (yyval.integer) = (yyvsp[-1].integer);
       }
-#line 4525 "libyara/grammar.c"
+#line 4530 "libyara/grammar.c"
     break;
 
   case 134: /* rule_enumeration: rule_enumeration_item  */
-#line 2429 "libyara/grammar.y"
+#line 2435 "libyara/grammar.y"
                             { (yyval.integer) = (yyvsp[0].integer); }
-#line 4531 "libyara/grammar.c"
+#line 4536 "libyara/grammar.c"
     break;
 
   case 135: /* rule_enumeration: rule_enumeration ',' rule_enumeration_item  */
-#line 2430 "libyara/grammar.y"
+#line 2436 "libyara/grammar.y"
                                                  { (yyval.integer) = (yyvsp[-2].integer) + (yyvsp[0].integer); }
-#line 4537 "libyara/grammar.c"
+#line 4542 "libyara/grammar.c"
     break;
 
   case 136: /* rule_enumeration_item: "identifier"  */
-#line 2436 "libyara/grammar.y"
+#line 2442 "libyara/grammar.y"
       {
         int result = ERROR_SUCCESS;
 
@@ -4570,11 +4575,11 @@ yyreduce:
 
         (yyval.integer) = 1;
       }
-#line 4574 "libyara/grammar.c"
+#line 4579 "libyara/grammar.c"
     break;
 
   case 137: /* rule_enumeration_item: "identifier" '*'  */
-#line 2469 "libyara/grammar.y"
+#line 2475 "libyara/grammar.y"
       {
         int count = 0;
         YR_NAMESPACE* ns = (YR_NAMESPACE*) yr_arena_get_ptr(
@@ -4595,11 +4600,11 @@ yyreduce:
 
         (yyval.integer) = count;
       }
-#line 4599 "libyara/grammar.c"
+#line 4604 "libyara/grammar.c"
     break;
 
   case 138: /* for_expression: primary_expression  */
-#line 2494 "libyara/grammar.y"
+#line 2500 "libyara/grammar.y"
       {
         if ((yyvsp[0].expression).type == EXPRESSION_TYPE_INTEGER && !IS_UNDEFINED((yyvsp[0].expression).value.integer))
         {
@@ -4655,57 +4660,57 @@ yyreduce:
 
         (yyval.expression).value.integer = (yyvsp[0].expression).value.integer;
       }
-#line 4659 "libyara/grammar.c"
+#line 4664 "libyara/grammar.c"
     break;
 
   case 139: /* for_expression: for_quantifier  */
-#line 2550 "libyara/grammar.y"
+#line 2556 "libyara/grammar.y"
       {
         (yyval.expression).value.integer = (yyvsp[0].expression).value.integer;
       }
-#line 4667 "libyara/grammar.c"
+#line 4672 "libyara/grammar.c"
     break;
 
   case 140: /* for_quantifier: "<all>"  */
-#line 2557 "libyara/grammar.y"
+#line 2563 "libyara/grammar.y"
       {
         yr_parser_emit_push_const(yyscanner, YR_UNDEFINED);
         (yyval.expression).type = EXPRESSION_TYPE_QUANTIFIER;
         (yyval.expression).value.integer = FOR_EXPRESSION_ALL;
      }
-#line 4677 "libyara/grammar.c"
+#line 4682 "libyara/grammar.c"
     break;
 
   case 141: /* for_quantifier: "<any>"  */
-#line 2563 "libyara/grammar.y"
+#line 2569 "libyara/grammar.y"
       {
         yr_parser_emit_push_const(yyscanner, 1);
         (yyval.expression).type = EXPRESSION_TYPE_QUANTIFIER;
         (yyval.expression).value.integer = FOR_EXPRESSION_ANY;
       }
-#line 4687 "libyara/grammar.c"
+#line 4692 "libyara/grammar.c"
     break;
 
   case 142: /* for_quantifier: "<none>"  */
-#line 2569 "libyara/grammar.y"
+#line 2575 "libyara/grammar.y"
       {
         yr_parser_emit_push_const(yyscanner, 0);
         (yyval.expression).type = EXPRESSION_TYPE_QUANTIFIER;
         (yyval.expression).value.integer = FOR_EXPRESSION_NONE;
       }
-#line 4697 "libyara/grammar.c"
+#line 4702 "libyara/grammar.c"
     break;
 
   case 143: /* primary_expression: '(' primary_expression ')'  */
-#line 2579 "libyara/grammar.y"
+#line 2585 "libyara/grammar.y"
       {
         (yyval.expression) = (yyvsp[-1].expression);
       }
-#line 4705 "libyara/grammar.c"
+#line 4710 "libyara/grammar.c"
     break;
 
   case 144: /* primary_expression: "<filesize>"  */
-#line 2583 "libyara/grammar.y"
+#line 2589 "libyara/grammar.y"
       {
         fail_if_error(yr_parser_emit(
             yyscanner, OP_FILESIZE, NULL));
@@ -4713,11 +4718,11 @@ yyreduce:
         (yyval.expression).type = EXPRESSION_TYPE_INTEGER;
         (yyval.expression).value.integer = YR_UNDEFINED;
       }
-#line 4717 "libyara/grammar.c"
+#line 4722 "libyara/grammar.c"
     break;
 
   case 145: /* primary_expression: "<entrypoint>"  */
-#line 2591 "libyara/grammar.y"
+#line 2597 "libyara/grammar.y"
       {
         yywarning(yyscanner,
             "using deprecated \"entrypoint\" keyword. Use the \"entry_point\" "
@@ -4729,11 +4734,11 @@ yyreduce:
         (yyval.expression).type = EXPRESSION_TYPE_INTEGER;
         (yyval.expression).value.integer = YR_UNDEFINED;
       }
-#line 4733 "libyara/grammar.c"
+#line 4738 "libyara/grammar.c"
     break;
 
   case 146: /* primary_expression: "integer function" '(' primary_expression ')'  */
-#line 2603 "libyara/grammar.y"
+#line 2609 "libyara/grammar.y"
       {
         check_type((yyvsp[-1].expression), EXPRESSION_TYPE_INTEGER, "intXXXX or uintXXXX");
 
@@ -4747,33 +4752,33 @@ yyreduce:
         (yyval.expression).type = EXPRESSION_TYPE_INTEGER;
         (yyval.expression).value.integer = YR_UNDEFINED;
       }
-#line 4751 "libyara/grammar.c"
+#line 4756 "libyara/grammar.c"
     break;
 
   case 147: /* primary_expression: "integer number"  */
-#line 2617 "libyara/grammar.y"
+#line 2623 "libyara/grammar.y"
       {
         fail_if_error(yr_parser_emit_push_const(yyscanner, (yyvsp[0].integer)));
 
         (yyval.expression).type = EXPRESSION_TYPE_INTEGER;
         (yyval.expression).value.integer = (yyvsp[0].integer);
       }
-#line 4762 "libyara/grammar.c"
+#line 4767 "libyara/grammar.c"
     break;
 
   case 148: /* primary_expression: "floating point number"  */
-#line 2624 "libyara/grammar.y"
+#line 2630 "libyara/grammar.y"
       {
         fail_if_error(yr_parser_emit_with_arg_double(
             yyscanner, OP_PUSH, (yyvsp[0].double_), NULL, NULL));
 
         (yyval.expression).type = EXPRESSION_TYPE_FLOAT;
       }
-#line 4773 "libyara/grammar.c"
+#line 4778 "libyara/grammar.c"
     break;
 
   case 149: /* primary_expression: "text string"  */
-#line 2631 "libyara/grammar.y"
+#line 2637 "libyara/grammar.y"
       {
         YR_ARENA_REF ref;
 
@@ -4798,11 +4803,11 @@ yyreduce:
         (yyval.expression).type = EXPRESSION_TYPE_STRING;
         (yyval.expression).value.sized_string_ref = ref;
       }
-#line 4802 "libyara/grammar.c"
+#line 4807 "libyara/grammar.c"
     break;
 
   case 150: /* primary_expression: "string count" "<in>" range  */
-#line 2656 "libyara/grammar.y"
+#line 2662 "libyara/grammar.y"
       {
         int result = yr_parser_reduce_string_identifier(
             yyscanner, (yyvsp[-2].c_string), OP_COUNT_IN, YR_UNDEFINED);
@@ -4814,11 +4819,11 @@ yyreduce:
         (yyval.expression).type = EXPRESSION_TYPE_INTEGER;
         (yyval.expression).value.integer = YR_UNDEFINED;
       }
-#line 4818 "libyara/grammar.c"
+#line 4823 "libyara/grammar.c"
     break;
 
   case 151: /* primary_expression: "string count"  */
-#line 2668 "libyara/grammar.y"
+#line 2674 "libyara/grammar.y"
       {
         int result = yr_parser_reduce_string_identifier(
             yyscanner, (yyvsp[0].c_string), OP_COUNT, YR_UNDEFINED);
@@ -4830,11 +4835,11 @@ yyreduce:
         (yyval.expression).type = EXPRESSION_TYPE_INTEGER;
         (yyval.expression).value.integer = YR_UNDEFINED;
       }
-#line 4834 "libyara/grammar.c"
+#line 4839 "libyara/grammar.c"
     break;
 
   case 152: /* primary_expression: "string offset" '[' primary_expression ']'  */
-#line 2680 "libyara/grammar.y"
+#line 2686 "libyara/grammar.y"
       {
         int result = yr_parser_reduce_string_identifier(
             yyscanner, (yyvsp[-3].c_string), OP_OFFSET, YR_UNDEFINED);
@@ -4846,11 +4851,11 @@ yyreduce:
         (yyval.expression).type = EXPRESSION_TYPE_INTEGER;
         (yyval.expression).value.integer = YR_UNDEFINED;
       }
-#line 4850 "libyara/grammar.c"
+#line 4855 "libyara/grammar.c"
     break;
 
   case 153: /* primary_expression: "string offset"  */
-#line 2692 "libyara/grammar.y"
+#line 2698 "libyara/grammar.y"
       {
         int result = yr_parser_emit_push_const(yyscanner, 1);
 
@@ -4865,11 +4870,11 @@ yyreduce:
         (yyval.expression).type = EXPRESSION_TYPE_INTEGER;
         (yyval.expression).value.integer = YR_UNDEFINED;
       }
-#line 4869 "libyara/grammar.c"
+#line 4874 "libyara/grammar.c"
     break;
 
   case 154: /* primary_expression: "string length" '[' primary_expression ']'  */
-#line 2707 "libyara/grammar.y"
+#line 2713 "libyara/grammar.y"
       {
         int result = yr_parser_reduce_string_identifier(
             yyscanner, (yyvsp[-3].c_string), OP_LENGTH, YR_UNDEFINED);
@@ -4881,11 +4886,11 @@ yyreduce:
         (yyval.expression).type = EXPRESSION_TYPE_INTEGER;
         (yyval.expression).value.integer = YR_UNDEFINED;
       }
-#line 4885 "libyara/grammar.c"
+#line 4890 "libyara/grammar.c"
     break;
 
   case 155: /* primary_expression: "string length"  */
-#line 2719 "libyara/grammar.y"
+#line 2725 "libyara/grammar.y"
       {
         int result = yr_parser_emit_push_const(yyscanner, 1);
 
@@ -4900,11 +4905,11 @@ yyreduce:
         (yyval.expression).type = EXPRESSION_TYPE_INTEGER;
         (yyval.expression).value.integer = YR_UNDEFINED;
       }
-#line 4904 "libyara/grammar.c"
+#line 4909 "libyara/grammar.c"
     break;
 
   case 156: /* primary_expression: identifier  */
-#line 2734 "libyara/grammar.y"
+#line 2740 "libyara/grammar.y"
       {
         int result = ERROR_SUCCESS;
 
@@ -4951,11 +4956,11 @@ yyreduce:
 
         fail_if_error(result);
       }
-#line 4955 "libyara/grammar.c"
+#line 4960 "libyara/grammar.c"
     break;
 
   case 157: /* primary_expression: '-' primary_expression  */
-#line 2781 "libyara/grammar.y"
+#line 2787 "libyara/grammar.y"
       {
         int result = ERROR_SUCCESS;
 
@@ -4976,11 +4981,11 @@ yyreduce:
 
         fail_if_error(result);
       }
-#line 4980 "libyara/grammar.c"
+#line 4985 "libyara/grammar.c"
     break;
 
   case 158: /* primary_expression: primary_expression '+' primary_expression  */
-#line 2802 "libyara/grammar.y"
+#line 2808 "libyara/grammar.y"
       {
         int result = yr_parser_reduce_operation(
             yyscanner, "+", (yyvsp[-2].expression), (yyvsp[0].expression));
@@ -5015,11 +5020,11 @@ yyreduce:
 
         fail_if_error(result);
       }
-#line 5019 "libyara/grammar.c"
+#line 5024 "libyara/grammar.c"
     break;
 
   case 159: /* primary_expression: primary_expression '-' primary_expression  */
-#line 2837 "libyara/grammar.y"
+#line 2843 "libyara/grammar.y"
       {
         int result = yr_parser_reduce_operation(
             yyscanner, "-", (yyvsp[-2].expression), (yyvsp[0].expression));
@@ -5054,11 +5059,11 @@ yyreduce:
 
         fail_if_error(result);
       }
-#line 5058 "libyara/grammar.c"
+#line 5063 "libyara/grammar.c"
     break;
 
   case 160: /* primary_expression: primary_expression '*' primary_expression  */
-#line 2872 "libyara/grammar.y"
+#line 2878 "libyara/grammar.y"
       {
         int result = yr_parser_reduce_operation(
             yyscanner, "*", (yyvsp[-2].expression), (yyvsp[0].expression));
@@ -5092,11 +5097,11 @@ yyreduce:
 
         fail_if_error(result);
       }
-#line 5096 "libyara/grammar.c"
+#line 5101 "libyara/grammar.c"
     break;
 
   case 161: /* primary_expression: primary_expression '\\' primary_expression  */
-#line 2906 "libyara/grammar.y"
+#line 2912 "libyara/grammar.y"
       {
         int result = yr_parser_reduce_operation(
             yyscanner, "\\", (yyvsp[-2].expression), (yyvsp[0].expression));
@@ -5127,11 +5132,11 @@ yyreduce:
 
         fail_if_error(result);
       }
-#line 5131 "libyara/grammar.c"
+#line 5136 "libyara/grammar.c"
     break;
 
   case 162: /* primary_expression: primary_expression '%' primary_expression  */
-#line 2937 "libyara/grammar.y"
+#line 2943 "libyara/grammar.y"
       {
         check_type((yyvsp[-2].expression), EXPRESSION_TYPE_INTEGER, "%");
         check_type((yyvsp[0].expression), EXPRESSION_TYPE_INTEGER, "%");
@@ -5153,11 +5158,11 @@ yyreduce:
           fail_if_error(ERROR_DIVISION_BY_ZERO);
         }
       }
-#line 5157 "libyara/grammar.c"
+#line 5162 "libyara/grammar.c"
     break;
 
   case 163: /* primary_expression: primary_expression '^' primary_expression  */
-#line 2959 "libyara/grammar.y"
+#line 2965 "libyara/grammar.y"
       {
         check_type((yyvsp[-2].expression), EXPRESSION_TYPE_INTEGER, "^");
         check_type((yyvsp[0].expression), EXPRESSION_TYPE_INTEGER, "^");
@@ -5167,11 +5172,11 @@ yyreduce:
         (yyval.expression).type = EXPRESSION_TYPE_INTEGER;
         (yyval.expression).value.integer = OPERATION(^, (yyvsp[-2].expression).value.integer, (yyvsp[0].expression).value.integer);
       }
-#line 5171 "libyara/grammar.c"
+#line 5176 "libyara/grammar.c"
     break;
 
   case 164: /* primary_expression: primary_expression '&' primary_expression  */
-#line 2969 "libyara/grammar.y"
+#line 2975 "libyara/grammar.y"
       {
         check_type((yyvsp[-2].expression), EXPRESSION_TYPE_INTEGER, "^");
         check_type((yyvsp[0].expression), EXPRESSION_TYPE_INTEGER, "^");
@@ -5181,11 +5186,11 @@ yyreduce:
         (yyval.expression).type = EXPRESSION_TYPE_INTEGER;
         (yyval.expression).value.integer = OPERATION(&, (yyvsp[-2].expression).value.integer, (yyvsp[0].expression).value.integer);
       }
-#line 5185 "libyara/grammar.c"
+#line 5190 "libyara/grammar.c"
     break;
 
   case 165: /* primary_expression: primary_expression '|' primary_expression  */
-#line 2979 "libyara/grammar.y"
+#line 2985 "libyara/grammar.y"
       {
         check_type((yyvsp[-2].expression), EXPRESSION_TYPE_INTEGER, "|");
         check_type((yyvsp[0].expression), EXPRESSION_TYPE_INTEGER, "|");
@@ -5195,11 +5200,11 @@ yyreduce:
         (yyval.expression).type = EXPRESSION_TYPE_INTEGER;
         (yyval.expression).value.integer = OPERATION(|, (yyvsp[-2].expression).value.integer, (yyvsp[0].expression).value.integer);
       }
-#line 5199 "libyara/grammar.c"
+#line 5204 "libyara/grammar.c"
     break;
 
   case 166: /* primary_expression: '~' primary_expression  */
-#line 2989 "libyara/grammar.y"
+#line 2995 "libyara/grammar.y"
       {
         check_type((yyvsp[0].expression), EXPRESSION_TYPE_INTEGER, "~");
 
@@ -5209,11 +5214,11 @@ yyreduce:
         (yyval.expression).value.integer = ((yyvsp[0].expression).value.integer == YR_UNDEFINED) ?
             YR_UNDEFINED : ~((yyvsp[0].expression).value.integer);
       }
-#line 5213 "libyara/grammar.c"
+#line 5218 "libyara/grammar.c"
     break;
 
   case 167: /* primary_expression: primary_expression "<<" primary_expression  */
-#line 2999 "libyara/grammar.y"
+#line 3005 "libyara/grammar.y"
       {
         int result;
 
@@ -5233,11 +5238,11 @@ yyreduce:
 
         fail_if_error(result);
       }
-#line 5237 "libyara/grammar.c"
+#line 5242 "libyara/grammar.c"
     break;
 
   case 168: /* primary_expression: primary_expression ">>" primary_expression  */
-#line 3019 "libyara/grammar.y"
+#line 3025 "libyara/grammar.y"
       {
         int result;
 
@@ -5257,19 +5262,19 @@ yyreduce:
 
         fail_if_error(result);
       }
-#line 5261 "libyara/grammar.c"
+#line 5266 "libyara/grammar.c"
     break;
 
   case 169: /* primary_expression: regexp  */
-#line 3039 "libyara/grammar.y"
+#line 3045 "libyara/grammar.y"
       {
         (yyval.expression) = (yyvsp[0].expression);
       }
-#line 5269 "libyara/grammar.c"
+#line 5274 "libyara/grammar.c"
     break;
 
 
-#line 5273 "libyara/grammar.c"
+#line 5278 "libyara/grammar.c"
 
       default: break;
     }
@@ -5493,5 +5498,5 @@ yyreturnlab:
   return yyresult;
 }
 
-#line 3044 "libyara/grammar.y"
+#line 3050 "libyara/grammar.y"
 
